@@ -9,7 +9,8 @@ from harness.props.markup_common import S, B, I, MAYBE
 
 OPTION_KEYS = ["auto_name", "auto_value", "auto_domid", "auto_for", "auto_tabindex", "auto_filter"]
 FIVE = OPTION_KEYS[:5]
-OBSERVED = OPTION_KEYS + ["tabindex", "domid_format", "ordered_attributes"]
+OBSERVED = OPTION_KEYS + ["tabindex", "domid_format", "ordered_attributes", "filters"]
+NO_FILTERS = {"t": "o", "v": "()"}
 KNOWN_KEYS = set(OBSERVED) | {"markup_wrapper", "filters"}
 DEFAULTS = {"auto_name": True, "auto_value": True, "auto_domid": False, "auto_for": False, "auto_tabindex": False,
             "auto_filter": False}
@@ -76,7 +77,7 @@ def shadowed_options(tag_kwargs, levels):
     """class predicate of KF-C19-a for one tag call: options without tag-level on/off whose innermost
     explicit setting is auto-like while some outer level says on/off"""
     out = []
-    for option in FIVE:
+    for option in OPTION_KEYS:
         tv = tag_kwargs.get(option)
         if tv is not None and trool(tv) is not None:
             continue
@@ -103,6 +104,87 @@ def lookup(levels, key, default):
         if key in lv:
             return lv[key]
     return default
+
+
+# ------------------------------------------------------------------ filters (round h9)
+# A case may carry "filters": [[name, [filter description, ...]], ...]; a setting {"t":"o","v":name} stands for THAT list
+# object (one per case, so that generator["filters"] can be read back by identity).  A description is
+#   {"tags": None | [tag, ...], "dels": [attr, ...], "sets": [[attr, value], ...], "act": {"kind": keep|append|replace|drop|appendtag, ...}}
+
+def make_filter(d):
+    """the real Python callable for a filter description (what Lean `Filter.apply` models)"""
+    dels, sets, act, tags = d["dels"], d["sets"], d["act"], d["tags"]
+
+    def fn(tagname, attributes, contents, context, bind):
+        for k in dels:
+            attributes.pop(k, None)
+        for k, v in sets:
+            attributes[k] = mc.to_py(v)
+        kind = act["kind"]
+        if kind == "keep":
+            return contents
+        if kind == "append":
+            return act["m"] if contents is None else contents + act["m"]
+        if kind == "replace":
+            return mc.to_py(act["v"])
+        if kind == "drop":
+            return None
+        if kind == "appendtag":
+            return tagname if contents is None else contents + tagname
+        raise ValueError(kind)
+    if tags is not None:
+        fn.tags = list(tags)
+    return fn
+
+
+class Env:
+    """the filter lists of one case as live objects"""
+
+    def __init__(self, case):
+        self.descr = dict((name, fs) for name, fs in case.get("filters", []))
+        self.lists = dict((name, [make_filter(d) for d in fs]) for name, fs in self.descr.items())
+        self.ids = dict((id(lst), name) for name, lst in self.lists.items())
+
+    def to_py(self, v):
+        if v["t"] == "o":
+            return () if v["v"] == "()" else self.lists[v["v"]]
+        return mc.to_py(v)
+
+    def kwargs_of(self, pairs):
+        return {k: self.to_py(v) for k, v in pairs}
+
+    def from_py(self, x):
+        name = self.ids.get(id(x))
+        return {"t": "o", "v": name} if name is not None else mc.from_py(x)
+
+
+NO_ENV = Env({})
+
+
+def filters_ref(tag, attrs, cur, descrs):
+    """SPEC of the filter stage, in Python, independent of Lean: the filters in force run in order; one with a non-empty
+    `tags` runs only on those tags; each is handed the contents the previous one returned; it changes the attributes it
+    names and nothing else.  Returns (contents, indices that ran, attribute names the running filters wrote)."""
+    ran, wrote = [], set()
+    for i, d in enumerate(descrs):
+        if d["tags"] and tag not in d["tags"]:
+            continue
+        ran.append(i)
+        for k in d["dels"]:
+            attrs.pop(k, None)
+        for k, v in d["sets"]:
+            attrs[k] = v["v"]
+            wrote.add(k)
+        kind = d["act"]["kind"]
+        if kind == "append":
+            cur = d["act"]["m"] if cur is None else cur + d["act"]["m"]
+        elif kind == "replace":
+            cur = d["act"]["v"]["v"]
+        elif kind == "drop":
+            cur = None
+        elif kind == "appendtag":
+            cur = tag if cur is None else cur + tag
+    return cur, ran, wrote
 
 
 # The documentation's table (docs/source/markup.rst, "Transformations"): per transform its default, the tags it acts
@@ -152,7 +234,7 @@ def value_effect(tag, attrs, contents, u, forced):
     return None
 
 
-def expected_tag(op, levels, resolver, tb):
+def expected_tag(op, levels, resolver, tb, env=NO_ENV, info=None):
     """Expected attributes / text of one tag call: option resolution (`resolver`) + the documentation's applies table.
     Returns (tag, attrs dict, text, tabindex handed out or None).  tb = generator["tabindex"] before the call."""
     tag = op["tag"].lower() if op["via"] == "tag" else op["tag"]
@@ -165,8 +247,9 @@ def expected_tag(op, levels, resolver, tb):
             kw[k.rstrip("_")] = v
     attrs = {k: v["v"] for k, v in kw.items() if k not in OPTION_KEYS}
     bind = op["bind"]
-    dec = {o: resolver(o, kw.get(o), levels) for o in FIVE}
+    dec = {o: resolver(o, kw.get(o), levels) for o in OPTION_KEYS}
     text = contents if contents is not None else ""
+    cur = contents
     fmt = lookup(levels, "domid_format", S("f_%s"))["v"]
 
     def raw_id():
@@ -187,7 +270,7 @@ def expected_tag(op, levels, resolver, tb):
             if on and bind is not None and (forced or tag in AUTO_TAGS["auto_value"]):
                 new_text = value_effect(tag, attrs, contents, bind["u"], forced)
                 if new_text is not None:
-                    text = new_text
+                    text = cur = new_text
             continue
         doc = DOC[option]
         if on and (bind is not None or not doc["needs_bind"]) and applies(option, tag, forced, doc["attr"] in attrs):
@@ -204,6 +287,15 @@ def expected_tag(op, levels, resolver, tb):
                     attrs[doc["attr"]] = fmt % raw
         if option == "auto_for" and tag == "label":
             attrs.pop("value", None)         # a label's value= only selects the control it points to
+    # the filter stage: last, iff auto_filter resolves to on, with the `filters` setting in force
+    fv = lookup(levels, "filters", NO_FILTERS)
+    if dec["auto_filter"][0] and fv["t"] == "o" and fv["v"] != "()":
+        cur, ran, wrote = filters_ref(tag, attrs, cur, env.descr[fv["v"]])
+        text = cur if cur is not None else ""
+        if info is not None:
+            info.update(ran=ran, wrote=wrote, n=len(env.descr[fv["v"]]))
+    elif info is not None and fv["t"] == "o" and fv["v"] != "()":
+        info.update(off=True)
     if tag in VOIDS:
         text = ""
     return tag, attrs, text, handed
@@ -224,25 +316,35 @@ def int_valued_option(op, levels):
     return None
 
 
-def snapshot(gen):
-    return [[k, mc.from_py(gen[k])] for k in OBSERVED]
+def bad_filters_value(op, levels, resolver):
+    """the filter toggle is on and the `filters` value in force cannot be iterated / called (outside the declared domain):
+    the tag call raises TypeError, after the five attribute transforms ran"""
+    kw = {k.rstrip("_"): v for k, v in op["kwargs"]}
+    if not resolver("auto_filter", kw.get("auto_filter"), levels)[0]:
+        return False
+    fv = lookup(levels, "filters", NO_FILTERS)
+    return fv["t"] in ("i", "b", "maybe") or (fv["t"] in ("s", "m") and fv["v"] != "")
 
 
-def apply_op(gen, op, pool=None):
+def snapshot(gen, env=NO_ENV):
+    return [[k, env.from_py(gen[k])] for k in OBSERVED]
+
+
+def apply_op(gen, op, pool=None, env=NO_ENV):
     """perform one op on the real generator; returns (exception class name or None, markup or None, contents or None)"""
     from flatland.out.markup import Tag
     try:
         kind = op["op"]
         if kind == "begin":
-            gen.begin(**mc.kwargs_of(op["settings"]))
+            gen.begin(**env.kwargs_of(op["settings"]))
         elif kind == "end":
             gen.end()
         elif kind == "set":
-            gen.set(**mc.kwargs_of(op["settings"]))
+            gen.set(**env.kwargs_of(op["settings"]))
         elif kind == "setitem":
-            gen[op["key"]] = mc.to_py(op["value"])
+            gen[op["key"]] = env.to_py(op["value"])
         elif kind == "update":
-            gen.update(**mc.kwargs_of(op["settings"]))
+            gen.update(**env.kwargs_of(op["settings"]))
         elif kind == "tag":
             bind = mc.make_bind(op["bind"])
             kwargs = mc.kwargs_of(op["kwargs"])
@@ -268,9 +370,9 @@ def apply_op(gen, op, pool=None):
     return None, None, None
 
 
-def make_generator(init):
+def make_generator(init, env=NO_ENV):
     from flatland.out.markup import Generator
-    return Generator(init["markup"], **mc.kwargs_of(init["settings"]))
+    return Generator(init["markup"], **env.kwargs_of(init["settings"]))
 
 
 def settings_of(op):
@@ -282,7 +384,8 @@ def settings_of(op):
 # what a fresh Generator() reads back (docs/source/markup.rst: transformation defaults; "Numbering starts at the scope's
 # tabindex", 0 = no numbering; ids are formatted with 'f_%s'; attributes are emitted in a fixed order)
 DEFAULT_READS = dict([(k, B(v)) for k, v in DEFAULTS.items()] +
-                     [("tabindex", I(0)), ("domid_format", S("f_%s")), ("ordered_attributes", B(True))])
+                     [("tabindex", I(0)), ("domid_format", S("f_%s")), ("ordered_attributes", B(True)),
+                      ("filters", NO_FILTERS)])
 
 
 def expected_snapshot(levels):
@@ -297,10 +400,11 @@ def run_reference(case, resolver=spec_resolve, stop_before=None):
     The reference keeps its OWN settings stack, tabindex counter included; the real generator is only ever compared with
     it (after every op: `generator-reads-back` / `tabindex-counter`), never read to form an expectation."""
     fails = []
+    env = Env(case)
     init = case["init"]
     bad_init = [k for k, _ in init["settings"] if k not in KNOWN_KEYS]
     try:
-        gen = make_generator(init)
+        gen = make_generator(init, env)
     except CaseTimeout:
         raise
     except Exception as e:  # noqa
@@ -326,7 +430,7 @@ def run_reference(case, resolver=spec_resolve, stop_before=None):
     def read_back(i):
         """the real generator against the reference, key by key; after a reported difference the reference adopts the
         observed value (one defect, one report: what follows is judged relative to it)"""
-        got, want = snapshot(gen), expected_snapshot(levels)
+        got, want = snapshot(gen, env), expected_snapshot(levels)
         diff = [k for (k, g), (_, w) in zip(got, want) if reading(k, g) != reading(k, w)]
         if not diff:
             return
@@ -340,10 +444,10 @@ def run_reference(case, resolver=spec_resolve, stop_before=None):
     read_back("init")
 
     def step(i, op):
-        before = snapshot(gen)
+        before = snapshot(gen, env)
         tb = lookup(levels, "tabindex", I(0)).get("v", 0)          # the REFERENCE's counter
-        err, out, contents = apply_op(gen, op, pool)
-        after = snapshot(gen)
+        err, out, contents = apply_op(gen, op, pool, env)
+        after = snapshot(gen, env)
         kind = op["op"]
         if kind in ("begin", "set", "setitem", "update"):
             unknown = [k for k, _ in settings_of(op) if k not in KNOWN_KEYS]
@@ -401,14 +505,22 @@ def run_reference(case, resolver=spec_resolve, stop_before=None):
                     fails.append({"clause": "tag-renders", "op": i, "expected": "AttributeError (int value of %s)" % bad, "observed": err})
                 if bad == "auto_filter":
                     # the last transform: the five before it ran, the tabindex one included
-                    handed = expected_tag(op, levels, resolver, tb)[3]
+                    handed = expected_tag(op, levels, resolver, tb, env)[3]
                     if handed is not None and handed > 0:
                         levels[0]["tabindex"] = I(handed + 1)
+                return
+            if bad_filters_value(op, levels, resolver):
+                if err != "TypeError":
+                    fails.append({"clause": "tag-renders", "op": i, "expected": "TypeError (filters value is not a sequence of callables)", "observed": err})
+                handed = expected_tag(op, levels, resolver, tb, env)[3]
+                if handed is not None and handed > 0:
+                    levels[0]["tabindex"] = I(handed + 1)
                 return
             if err is not None:
                 fails.append({"clause": "tag-renders", "op": i, "expected": "markup", "observed": err})
                 return
-            tag, attrs, text, handed = expected_tag(op, levels, resolver, tb)
+            finfo = {}
+            tag, attrs, text, handed = expected_tag(op, levels, resolver, tb, env, finfo)
             if handed is not None and handed > 0:
                 levels[0]["tabindex"] = I(handed + 1)     # "subsequent assignments will increment by one"
             if how == "open":
@@ -419,7 +531,8 @@ def run_reference(case, resolver=spec_resolve, stop_before=None):
                 fails.append({"clause": "tag-renders", "op": i, "expected": "one element", "observed": out})
                 return
             got = dict((k, v) for k, v in el["attrs"])
-            leaked = [k for k in got if k.lower() in OPTION_KEYS]
+            # an option name may only show if a filter that RAN wrote it itself
+            leaked = [k for k in got if k.lower() in OPTION_KEYS and k not in finfo.get("wrote", ())]
             if leaked:
                 fails.append({"clause": "options-never-emitted", "op": i, "expected": [], "observed": leaked})
             if got != attrs or el["tag"] != tag or el["text"] != text:
@@ -440,7 +553,7 @@ def run_reference(case, resolver=spec_resolve, stop_before=None):
     # drain: exactly the open blocks can be ended
     opened = 0
     while opened < 64:
-        err, _, _ = apply_op(gen, {"op": "end"})
+        err, _, _ = apply_op(gen, {"op": "end"}, None, env)
         if err is not None:
             if err != "RuntimeError":
                 fails.append({"clause": "unbalanced-end-raises", "op": "drain", "expected": "RuntimeError", "observed": err})
@@ -455,9 +568,51 @@ def run_reference(case, resolver=spec_resolve, stop_before=None):
 
 # ------------------------------------------------------------------ generation
 
-def _rand_settings(rng, allow_unknown=True, allow_int=False):
+FILTER_ATTRS = ["class", "data-f", "name", "value", "id", "auto_name", "auto_filter", "tabindex"]
+FILTER_TAG_SETS = [None, None, [], ["input", "textarea"], ["label"], ["div", "option", "select"], ["form", "button", "input"]]
+
+
+def _rand_filter(rng, i):
+    sets = []
+    for _ in range(rng.choice([0, 1, 1, 2])):
+        k = rng.choice(FILTER_ATTRS)
+        if k not in [x[0] for x in sets]:
+            sets.append([k, S(rng.choice(["f%d" % i, "x y", "zz", ""]))])
+    dels = [rng.choice(FILTER_ATTRS + ["type", "checked"])] if rng.random() < 0.25 else []
+    r = rng.random()
+    if r < 0.3:
+        act = {"kind": "keep"}
+    elif r < 0.65:
+        act = {"kind": "append", "m": "[%d]" % i}
+    elif r < 0.8:
+        act = {"kind": "replace", "v": rng.choice([S("R%d" % i), mc.M("M%d" % i), S("")])}
+    elif r < 0.9:
+        act = {"kind": "drop"}
+    else:
+        act = {"kind": "appendtag"}
+    return {"tags": rng.choice(FILTER_TAG_SETS), "dels": dels, "sets": sets, "act": act}
+
+
+def _rand_filter_env(rng):
+    """0-3 named filter lists of 0-3 filters each"""
+    out = []
+    for j in range(rng.choice([1, 1, 2, 3])):
+        out.append(["L%d" % j, [_rand_filter(rng, 10 * j + i) for i in range(rng.choice([0, 1, 1, 2, 2, 3]))]])
+    return out
+
+
+def _rand_settings(rng, allow_unknown=True, allow_int=False, fnames=()):
     out = []
     used = set()
+    if fnames:
+        # a history that has filters: the toggle and the lists are given (at this level) much more often
+        if rng.random() < 0.45:
+            out.append(["filters", {"t": "o", "v": rng.choice(list(fnames) + ["()"])}])
+            used.add("filters")
+        if rng.random() < 0.45:
+            out.append(["auto_filter", rng.choice([S("on"), B(True), S("on"), S("off"), S("auto"), B(False)])])
+            used.add("auto_filter")
+        rng.shuffle(out)
     for _ in range(rng.choice([0, 1, 1, 1, 2, 2, 3])):
         r = rng.random()
         if allow_int and r < 0.02:
@@ -514,7 +669,42 @@ def _rand_tag(rng):
 
 
 def _rand_case(rng):
-    init = {"markup": rng.choice(["xml", "xhtml", "html"]), "settings": _rand_settings(rng, allow_unknown=rng.random() < 0.03)}
+    fenv = _rand_filter_env(rng) if rng.random() < 0.45 else []
+    fnames = tuple(n for n, _ in fenv)
+    c = _rand_case_with(rng, fnames)
+    if fenv:
+        c["filters"] = fenv
+    return c
+
+
+def _rand_bad_filters_case(rng):
+    """hostile stream: a `filters` value that is not a sequence of callables, the toggle decided by on/off only"""
+    el = {"kind": "scalar", "name": "fld", "u": "val"}
+    bad = rng.choice([S("ab"), S(""), I(5), B(True), MAYBE, mc.M("x"), mc.M("")])
+    init = [["auto_filter", rng.choice([B(True), S("on"), B(False)])], ["tabindex", I(rng.choice([0, 4, -2]))],
+            ["auto_tabindex", B(True)]]
+    how = rng.choice(["init", "begin", "setitem", "set", "update"])
+    ops = []
+    if how == "init":
+        init.append(["filters", bad])
+    elif how == "setitem":
+        ops.append({"op": "setitem", "key": "filters", "value": bad})
+    else:
+        ops.append({"op": how, "settings": [["filters", bad]]})
+    for _ in range(rng.choice([1, 2, 3])):
+        kw = [["type", S("text")]]
+        if rng.random() < 0.4:
+            kw.append(["auto_filter", rng.choice([S("on"), S("off"), B(True), B(False)])])
+        ops.append({"op": "tag", "via": "prop", "tag": rng.choice(["input", "textarea", "label"]), "bind": el, "kwargs": kw})
+    if how == "begin" and rng.random() < 0.7:
+        ops.append({"op": "end"})
+        ops.append({"op": "tag", "via": "prop", "tag": "input", "bind": el, "kwargs": []})
+    return {"init": {"markup": "xhtml", "settings": init}, "ops": ops}
+
+
+def _rand_case_with(rng, fnames):
+    init = {"markup": rng.choice(["xml", "xhtml", "html"]),
+            "settings": _rand_settings(rng, allow_unknown=rng.random() < 0.03, fnames=fnames)}
     if rng.random() < 0.01:
         init["markup"] = "sgml"
     ops = []
@@ -522,7 +712,7 @@ def _rand_case(rng):
     for _ in range(rng.choice([1, 2, 3, 4, 6, 8, 12, 12, 20, 30])):
         r = rng.random()
         if r < 0.2 and depth < 5:
-            s = _rand_settings(rng, allow_unknown=rng.random() < 0.15, allow_int=True)
+            s = _rand_settings(rng, allow_unknown=rng.random() < 0.15, allow_int=True, fnames=fnames)
             ops.append({"op": "begin", "settings": s})
             if all(k in KNOWN_KEYS for k, _ in s):
                 depth += 1
@@ -531,13 +721,13 @@ def _rand_case(rng):
                 ops.append({"op": "end"})
                 depth = max(0, depth - 1)
         elif r < 0.47:
-            ops.append({"op": "set", "settings": _rand_settings(rng, allow_unknown=rng.random() < 0.15)})
+            ops.append({"op": "set", "settings": _rand_settings(rng, allow_unknown=rng.random() < 0.15, fnames=fnames if rng.random() < 0.5 else ())})
         elif r < 0.52:
-            s = _rand_settings(rng, allow_unknown=rng.random() < 0.15, allow_int=True)
+            s = _rand_settings(rng, allow_unknown=rng.random() < 0.15, allow_int=True, fnames=fnames if rng.random() < 0.5 else ())
             if s:
                 ops.append({"op": "setitem", "key": s[0][0], "value": s[0][1]})
         elif r < 0.57:
-            ops.append({"op": "update", "settings": _rand_settings(rng, allow_unknown=rng.random() < 0.15, allow_int=True)})
+            ops.append({"op": "update", "settings": _rand_settings(rng, allow_unknown=rng.random() < 0.15, allow_int=True, fnames=fnames if rng.random() < 0.5 else ())})
         else:
             ops.append(_rand_tag(rng))
     if not any(o["op"] == "tag" for o in ops):
@@ -548,7 +738,7 @@ def _rand_case(rng):
 class C19(Property):
     id = "C19"
     title = "markup options resolve tag > block > generator > default and unwind on end()"
-    proof_module = "Proofs.C19"
+    proof_module = "Proofs.C19Writes"     # top of the chain C19 <- C19Exact <- C19Filters <- C19Writes
     theorems = [
         "Flatland.C19.Proofs.toggle_resolution",
         "Flatland.C19.Proofs.C19_full_fails",
@@ -581,10 +771,51 @@ class C19(Property):
         "Flatland.C19.Proofs.transformValue_skips",
         "Flatland.C19.Proofs.label_value_dropped",
         "Flatland.C19.Proofs.afterFailedTag_ctx",
+        # round h9 — exact resolution (no noShadowingAuto), code vs statement as an iff
+        "Flatland.C19.Proofs.toggle_resolution_exact",
+        "Flatland.C19.Proofs.toggle_resolution_code",
+        "Flatland.C19.Proofs.code_ne_doc_iff",
+        "Flatland.C19.Proofs.toggle_doc_iff",
+        "Flatland.C19.Proofs.toggle_resolution_doc",
+        "Flatland.C19.Proofs.noShadowingAuto_false_iff",
+        "Flatland.C19.Proofs.C19_full_fails_of_iff",
+        "Flatland.C19.Proofs.setting_in_force",
+        # filters
+        "Flatland.C19.Proofs.runFilters_eq_foldlM",
+        "Flatland.C19.Proofs.transformFiltersF_decision",
+        "Flatland.C19.Proofs.filters_resolution",
+        "Flatland.C19.Proofs.optionsF_never_emitted",
+        "Flatland.C19.Proofs.stepF_gen",
+        "Flatland.C19.Proofs.runF_gen",
+        "Flatland.C19.Proofs.transformF_no_filters",
+        # decision table + tabindex in full
+        "Flatland.C19.Proofs.applies_table",
+        "Flatland.C19.Proofs.transformName_table",
+        "Flatland.C19.Proofs.transformDomid_table_skips",
+        "Flatland.C19.Proofs.transformDomid_table_writes",
+        "Flatland.C19.Proofs.transformFor_table_skips",
+        "Flatland.C19.Proofs.transformFor_table_writes",
+        "Flatland.C19.Proofs.transformValue_table_skips",
+        "Flatland.C19.Proofs.transformTabindex_exact",
+        "Flatland.C19.Proofs.handOut_twice",
     ]
-    generated_obligations = ["Flatland.C19.Proofs.defaults_ok"]
+    generated_obligations = ["Flatland.C19.Proofs.defaults_ok", "Flatland.C19.Proofs.autoTags_doc",
+                             "Flatland.C19.Proofs.filters_default_ok"]
     level_text = "proof"
-    level_note = ("partial: (1) the resolution theorem needs noShadowingAuto — now exactly the condition under which code and "
+    level_note = ("round h9: (0) toggle_resolution_exact — _pop_toggle = codeRule(tag option, LAST explicit assignment among the "
+                  "open levels) for ALL histories and stored values, no side condition; toggle_doc_iff: the code returns the "
+                  "statement's decision iff not (tag silent and ShadowingAuto) — KF-C19-a as an exact class, C19_full_fails_of_iff "
+                  "an instance; transform_filters is inside the model (C19Filters.lean) and compared with real callables: "
+                  "runFilters_eq_foldlM (order, tags gating, threading), filters_resolution (run iff the toggle resolves on, list = "
+                  "last explicit `filters`), optionsF_never_emitted (whole pipeline incl. filters: an option name survives only if a "
+                  "running filter writes it), stepF_gen/runF_gen (filters never touch the generator, so the history theorems hold "
+                  "for the filter-aware runner); the decision table attrWritten (rows from the property text) + docTags "
+                  "(documentation) vs regenerated _auto_tags (autoTags_doc) replace the by-construction reading of applies; "
+                  "transformTabindex_exact states the counter for every int (0 blocks, >0 advances, <0 handed out and kept: "
+                  "KF-C19-b exactly).  Settings keys other than the six auto_* toggles (filters, domid_format, tabindex, "
+                  "ordered_attributes, markup_wrapper) are NOT consumed when given on a tag: they are ordinary attributes and are "
+                  "rendered (observed, modelled, not a finding: the property's options are the toggles).  "
+                  "Earlier rounds: (1) the resolution theorem toggle_resolution needs noShadowingAuto — now exactly the condition under which code and "
                   "rule agree on the level readings (codeResolve_ne_rule: where it fails they differ), refuted in general by "
                   "C19_full_fails (KF-C19-a); (2) resolution is proved for _pop_toggle's return value; decision => attribute is "
                   "proved against the applies table for name (equation), id/for/tabindex (skips + applies) and the skip half of "
@@ -596,11 +827,13 @@ class C19(Property):
                   "only (KF-C19-b: negative 'stop numbers' are test-pinned); the VALUE of the counter (explicit per level, "
                   "inherited by begin, +1 per positive hand-out at the current level, outer counter resumes after end) is "
                   "kept by the oracle's own reference and compared with generator['tabindex'] after every op (clause "
-                  "tabindex-counter; generator-reads-back for the other keys); filters not modelled beyond consuming auto_filter")
+                  "tabindex-counter; generator-reads-back for the other keys, `filters` included by identity of the list object)")
     technique = ("invariant (flat-copied frames = levels replayed) by induction over histories; decision-table resolver; "
                  "tables YES/NO/MAYBE, _default_context, _auto_tags regenerated from the source")
     trusted_base = [
-        "filters (auto_filter / filters=) are not modelled beyond consuming the option; markup_wrapper is always Markup",
+        "filters are the finite descriptions of harness/props/c19.py:make_filter (delete / set attributes, keep / append / "
+        "replace / drop contents, append the tag name, optional `tags`); a filter that mutates the context or raises is not "
+        "modelled; markup_wrapper is always Markup",
         "str.lower() replaced by ASCII lower-casing for YES/NO/MAYBE lookups (equivalence checked by the extractor over all code points)",
     ]
     assumptions = [
@@ -611,12 +844,14 @@ class C19(Property):
     rule = ("histories of 1-30 Generator calls (1, 2, 3, 4, 6, 8, 12, 12, 20 or 30; the `ops=` tag is capped at 12): begin/end/set/[]=/update (nesting depth <= 5, unbalanced end() and unknown option "
             "names interleaved) and tag calls (7 tag properties + tag(), input types, every subset of pre-existing "
             "name/value/id/for/tabindex/checked/selected, tag-level options); option values from on/off/auto/True/False/Maybe/"
-            "unknown text/upper-case/Kelvin-sign spellings.  non-trivial = at least one tag call made under >= 2 explicit levels or "
+            "unknown text/upper-case/Kelvin-sign spellings; 45 % of the histories carry 1-3 named filter lists of 0-3 filters "
+            "given at generator / begin / set / []= / update level with auto_filter at every level incl. the tag; every 50th case "
+            "is from the hostile `filters`-value stream (str / int / bool / Maybe).  non-trivial = at least one tag call made under >= 2 explicit levels or "
             "a tag-level option, or a rejected call; distinct = distinct canonical case JSON")
     exhaustive_note = ("every combination of (generator setting, block setting, set() inside the block, tag option) in "
                        "{absent,on,off,auto} for each of the five auto_* options on a tag the transform applies to, with and "
                        "without a pre-existing attribute")
-    quick_n = 40000
+    quick_n = 30000
     case_timeout = 60      # the machine is shared: a stalled worker must not look like a hang of the library
     thorough_n = 400000
 
@@ -652,6 +887,26 @@ class C19(Property):
                      {"op": "end"},
                      {"op": "tag", "via": "prop", "tag": "textarea", "bind": {"kind": "scalar", "name": "d", "u": ""}, "kwargs": [], "handle": "t", "how": "call"},
                      {"op": "tag", "via": "prop", "tag": "input", "bind": None, "kwargs": [], "how": "open"}]},
+            # round h9 — filters: generator-level list, toggle switched on by a block; order (append [0] then [1]); `tags`
+            # gating (the third one only on labels); a filter that writes an OPTION name itself; end() switches them off
+            {"filters": [["L0", [{"tags": None, "dels": [], "sets": [["class", S("f0")]], "act": {"kind": "append", "m": "[0]"}},
+                                 {"tags": [], "dels": ["class"], "sets": [["auto_name", S("zz")]], "act": {"kind": "append", "m": "[1]"}},
+                                 {"tags": ["label"], "dels": [], "sets": [["data-f", S("lab")]], "act": {"kind": "replace", "v": mc.M("Lab")}}]],
+                         ["L1", [{"tags": ["input", "textarea"], "dels": [], "sets": [], "act": {"kind": "appendtag"}}]]],
+             "init": {"markup": "xhtml", "settings": [["filters", {"t": "o", "v": "L0"}]]},
+             "ops": [{"op": "tag", "via": "prop", "tag": "textarea", "bind": el, "kwargs": []},
+                     {"op": "begin", "settings": [["auto_filter", S("on")]]},
+                     {"op": "tag", "via": "prop", "tag": "textarea", "bind": el, "kwargs": []},
+                     {"op": "tag", "via": "prop", "tag": "label", "bind": el, "kwargs": [["contents", S("x")]]},
+                     {"op": "tag", "via": "prop", "tag": "textarea", "bind": el, "kwargs": [["auto_filter", S("off")]]},
+                     {"op": "set", "settings": [["filters", {"t": "o", "v": "L1"}]]},
+                     {"op": "tag", "via": "prop", "tag": "textarea", "bind": el, "kwargs": [["contents", S("c")]]},
+                     {"op": "tag", "via": "prop", "tag": "select", "bind": el, "kwargs": []},
+                     {"op": "end"},
+                     {"op": "tag", "via": "prop", "tag": "textarea", "bind": el, "kwargs": [["auto_filter", S("on")]]}]},
+            # a `filters` value that is not a sequence of callables: TypeError only when the toggle is on; the counter advanced
+            {"init": {"markup": "xhtml", "settings": [["auto_tabindex", B(True)], ["tabindex", I(5)], ["filters", S("ab")]]},
+             "ops": [inp, {"op": "set", "settings": [["auto_filter", B(True)]]}, inp, {"op": "setitem", "key": "filters", "value": S("")}, inp]},
             # open KF-C19-b: a negative counter is handed out unchanged and never advances (tabindex=-1 twice): the "stop
             # numbers" pinned by tests/markup/test_transforms.py::test_tabindex_stop_numbers; a violation of "increasing"
             {"init": {"markup": "xhtml", "settings": [["auto_tabindex", B(True)], ["tabindex", I(-1)]]}, "ops": [inp, inp]},
@@ -676,25 +931,26 @@ class C19(Property):
                     yield {"init": {"markup": "xhtml", "settings": init}, "ops": ops}
 
     def generate(self, rng, n, tier):
-        for _ in range(n):
-            yield _rand_case(rng)
+        for i in range(n):
+            yield _rand_bad_filters_case(rng) if i % 50 == 49 else _rand_case(rng)
 
     # ------------------------------------------------------------------ real implementation
     def run_impl(self, case):
+        env = Env(case)
         try:
-            gen = make_generator(case["init"])
+            gen = make_generator(case["init"], env)
         except CaseTimeout:
             raise
         except Exception as e:  # noqa
             return {"init_err": type(e).__name__, "steps": [], "open": None}
-        obs = {"init_err": None, "init_ctx": snapshot(gen), "steps": []}
+        obs = {"init_err": None, "init_ctx": snapshot(gen, env), "steps": []}
         pool = mc.TagPool(gen)
         for op in case["ops"]:
-            err, out, contents = apply_op(gen, op, pool)
-            obs["steps"].append({"err": err, "out": mc.safe(out), "contents": mc.safe(contents), "ctx": snapshot(gen)})
+            err, out, contents = apply_op(gen, op, pool, env)
+            obs["steps"].append({"err": err, "out": mc.safe(out), "contents": mc.safe(contents), "ctx": snapshot(gen, env)})
         opened = 0
         while opened < 64:
-            err, _, _ = apply_op(gen, {"op": "end"})
+            err, _, _ = apply_op(gen, {"op": "end"}, None, env)
             if err is not None:
                 break
             opened += 1
@@ -731,7 +987,7 @@ class C19(Property):
         kw = {k.rstrip("_"): v for k, v in op["kwargs"]}
         if not shadowed_options(kw, levels):
             return None
-        tag, attrs, text, handed = expected_tag(op, levels, shadow_resolve, tb)
+        tag, attrs, text, handed = expected_tag(op, levels, shadow_resolve, tb, Env(case))
         if failure["clause"] == "tabindex-counter":
             # the counter side of the same finding: with the shadowed options at their built-in default the call hands
             # out (or does not hand out) a value, and the counter after the call is exactly what that gives
@@ -803,6 +1059,7 @@ class C19(Property):
                         if n >= 2:
                             two += 1
                             two_holds += ok
+        t += self._filter_tags(case, obs)
         if pairs:
             t.append("noShadowingAuto=%s" % ("all" if holds == pairs else "some-fail"))
             t.append("two-level-decision=%s" % ("none" if not two else ("holds" if two_holds == two else "some-fail")))
@@ -812,11 +1069,83 @@ class C19(Property):
             t.append("left-open")
         return sorted(set(t))
 
+    def _filter_tags(self, case, obs):
+        """coverage of the filter stage: per tag call that rendered, how many filters ran / were gated away, whether
+        filters were set but the toggle off, at which kind of level the list in force was given, what they did"""
+        t = []
+        if obs.get("init_err"):
+            return t
+        env = Env(case)
+        levels = [dict((k, v) for k, v in case["init"]["settings"])]
+        src = [dict((k, "init") for k, _ in case["init"]["settings"])]
+        for op, st in zip(case["ops"], obs["steps"]):
+            kind = op["op"]
+            if kind == "tag":
+                if st["err"]:
+                    if bad_filters_value(op, levels, shadow_resolve):
+                        t.append("filters=bad-value:%s" % st["err"])
+                    continue
+                if op.get("how", "call") == "close":
+                    continue
+                fv = lookup(levels, "filters", NO_FILTERS)
+                if fv["t"] != "o" or fv["v"] == "()":
+                    continue
+                info = {}
+                try:
+                    expected_tag(op, levels, shadow_resolve, 0, env, info)
+                except Exception:  # noqa
+                    continue
+                if info.get("off"):
+                    t.append("filters=set-but-toggle-off")
+                if "ran" in info:
+                    t.append("filters-ran=%d" % len(info["ran"]))
+                    if len(info["ran"]) < info["n"]:
+                        t.append("filters=gated-by-tags")
+                    if len(info["ran"]) >= 2:
+                        t.append("filters=chain>=2")
+                    if any(k in OPTION_KEYS for k in info["wrote"]):
+                        t.append("filters=writes-option-name")
+                    for i in info["ran"]:
+                        t.append("filter-act=%s" % env.descr[fv["v"]][i]["act"]["kind"])
+                    t.append("filters-level=%s" % lookup(src, "filters", "default"))
+                    kw = [k.rstrip("_") for k, _ in op["kwargs"]]
+                    t.append("filter-toggle-from=%s" % ("tag" if "auto_filter" in kw else lookup(src, "auto_filter", "default")))
+                continue
+            if st["err"]:
+                continue
+            if kind == "begin":
+                levels.insert(0, {})
+                src.insert(0, {})
+            if kind in ("begin", "set", "setitem", "update"):
+                for k, v in settings_of(op):
+                    levels[0][k] = v
+                    src[0][k] = kind
+            elif kind == "end" and len(levels) > 1:
+                levels.pop(0)
+                src.pop(0)
+        return t
+
     # ------------------------------------------------------------------ shrinking
     def shrink_candidates(self, case):
         ops = case["ops"]
+        extra = {"filters": case["filters"]} if case.get("filters") else {}
         for i in range(len(ops)):
-            yield {"init": case["init"], "ops": ops[:i] + ops[i + 1:]}
+            yield dict(extra, init=case["init"], ops=ops[:i] + ops[i + 1:])
+        for j, (name, fs) in enumerate(case.get("filters", [])):
+            for i in range(len(fs)):
+                c = copy.deepcopy(case)
+                del c["filters"][j][1][i]
+                yield c
+            for i, d in enumerate(fs):
+                for fld in ("sets", "dels"):
+                    for q in range(len(d[fld])):
+                        c = copy.deepcopy(case)
+                        del c["filters"][j][1][i][fld][q]
+                        yield c
+                if d["tags"] is not None:
+                    c = copy.deepcopy(case)
+                    c["filters"][j][1][i]["tags"] = None
+                    yield c
         if case["init"]["settings"]:
             for i in range(len(case["init"]["settings"])):
                 c = copy.deepcopy(case)
